@@ -44,6 +44,8 @@ def cases(tier, seed, prep=None):
     out = []
     for i in range(260 if q else 9000):
         out.append({"kind": "codec", "seed": b + i, "frag": ["one", "aligned", "random", "all", "random"][i % 5], "relay": i % 3 == 1})
+    for i in range(12 if q else 300):
+        out.append({"kind": "codec", "seed": b + 15000 + i, "frag": ["all", "all", "random"][i % 3], "relay": False, "burst": [300, 1000, 1500, 3000][i % 4]})
     attacks = ["wrong-prologue", "truncated-prologue", "extended-prologue", "other-role-prologue", "random-handshake",
                "other-psk", "oversized-frame", "garbage-after-handshake", "bad-relay-reply", "relay-ok-then-garbage", "record-before-kcm"]
     for i in range(176 if q else 5500):
@@ -233,6 +235,11 @@ def run_codec(spec):
     for rnd in range(rng.randint(1, 4)):
         for (src, st, dst, name) in ((rl, tl, rf, "L->F"), (rf, tf, rl, "F->L")):
             recs = gen_records(rng, rng.randint(1, 12))
+            if spec.get("burst"):
+                # a burst of small records that reaches the receiver as one read (many short writes in one reactor turn,
+                # the ACKs that come back for them, a replay after a reconnect)
+                recs = [rng.choice([Ack(rng.choice(NUMS)), Data(rng.choice(NUMS), rng.choice(NUMS), rng.randbytes(rng.randint(0, 12))),
+                                    Close(rng.choice(NUMS), rng.choice(NUMS))]) for _ in range(spec["burst"])]
             for r in recs:
                 src.send_record(r)
             wire = bytes(st.buf)
@@ -253,7 +260,7 @@ def run_codec(spec):
             if len(sample) < 3:
                 sample.append([_short(r) for r in recs[:4]])
     return {"violations": viol, "nontrivial": ["codec", spec["seed"], frag] if total else None,
-            "counters": {"records_roundtripped": total, "frag_" + frag: 1, "codec_through_relay": int(relay)},
+            "counters": {"records_roundtripped": total, "frag_" + frag: 1, "codec_through_relay": int(relay), "burst_cases": int(bool(spec.get("burst")))},
             "sample": {"kind": "codec", "frag": frag, "records": sample}}
 
 
